@@ -96,9 +96,35 @@ func appendsFeeding(s ssa.Value) []*ssa.Call {
 					}
 				}
 			}
+		case *ssa.Extract: // the slice is a result of a same-package helper: it is filled there
+			if c, ok := x.Tuple.(*ssa.Call); ok {
+				if h := samePkgHelper(c.Parent(), c); h != nil {
+					for _, ret := range returnsOf(h) {
+						vals, _ := resultVals(ret, x.Index)
+						for _, rv := range vals {
+							walk(rv)
+						}
+					}
+				}
+			}
 		}
 	}
 	walk(s)
+	return out
+}
+
+// hostsOf: the functions among fn and the same-package helpers it calls (two levels) that contain a direct
+// call of callee — the rule's local analyses run where the call lives.
+func hostsOf(fn *ssa.Function, callee string) []*ssa.Function {
+	seen := map[*ssa.Function]bool{}
+	var out []*ssa.Function
+	for _, d := range deepCalls(fn, byName(callee), deepDepth) {
+		h := d.c.Parent()
+		if !seen[h] {
+			seen[h] = true
+			out = append(out, h)
+		}
+	}
 	return out
 }
 
@@ -130,10 +156,11 @@ func runC01(w *World, r *Report) {
 	if f := w.fx(r, "accountant", "AccountingBook", "addLeafMemorized"); f != nil {
 		fn := f.fn
 		var isLeafTrue []Edge
-		for _, c := range f.calls(dagM("IsLeaf")) {
-			isLeafTrue = append(isLeafTrue, passBool(c, 0, true)...)
+		for _, d := range deepCalls(fn, byName(dagM("IsLeaf")), deepDepth) {
+			isLeafTrue = append(isLeafTrue, passBool(d.c, 0, true)...)
 		}
-		for _, e := range f.calls(nAddEdge) {
+		for _, ed := range deepCalls(fn, byName(nAddEdge), deepDepth) {
+			e := ed.c
 			_, a := callArgs(e)
 			x, ok := vertexOfHashArg(a[0])
 			if !ok {
@@ -151,7 +178,7 @@ func runC01(w *World, r *Report) {
 				r.undecided("confirm-only-validated", "addLeafMemorized/AddEdge-src", lineOf(w, e), "source vertex must come from the validated list", "src is "+pathOf(x))
 				continue
 			}
-			apps := appendsFeeding(slice)
+			apps := appendsFeeding(ed.argValue(slice))
 			if len(apps) == 0 {
 				r.bad("confirm-only-validated", "addLeafMemorized/validated-list", lineOf(w, e), "validated list must be filled by append behind the tip test", fmt.Sprintf("appends=%d isLeaf-edges=%d", len(apps), len(isLeafTrue)))
 				continue
@@ -163,16 +190,24 @@ func runC01(w *World, r *Report) {
 					continue
 				}
 				for _, y := range ys {
-					ve := validateCallsFor(fn, y)
+					ve := validateCallsFor(ap.Parent(), y) // where the list is filled (addLeafMemorized or its helper)
 					okAll := len(ve) > 0
 					if !behind(ap, ve) { // validated unconditionally is fine too
 						if len(isLeafTrue) == 0 {
 							okAll = false
 						}
+						nLocal := 0
 						for _, te := range isLeafTrue {
+							if te.From.Parent() != ap.Parent() {
+								continue
+							}
+							nLocal++
 							if !mustCrossFrom(te, ap.Block(), ve) {
 								okAll = false
 							}
+						}
+						if nLocal == 0 {
+							okAll = false
 						}
 					}
 					r.check(okAll, "confirm-only-validated", "addLeafMemorized/append("+describeVertexSource(y)+")", lineOf(w, ap),
@@ -239,7 +274,11 @@ func runC01(w *World, r *Report) {
 		if f == nil {
 			continue
 		}
-		for _, c := range f.calls(nValidateLeaf) {
+		var vcalls []ssa.CallInstruction
+		for _, host := range hostsOf(f.fn, nValidateLeaf) {
+			vcalls = append(vcalls, callsTo(host, nValidateLeaf)...)
+		}
+		for _, c := range vcalls {
 			_, a := callArgs(c)
 			v := pathOf(a[1])
 			for _, what := range []struct {
@@ -395,8 +434,24 @@ func runC01(w *World, r *Report) {
 		// funds check must be reached only after the walk: every path from the walker call to the funds check crosses the exhausted edge
 		for _, wc := range vl.calls(dagM("AncestorsWalker")) {
 			data := resultAt(wc, 0)
-			_, exh := exhaustedEdges(fn, data)
-			okOrder := len(exh) > 0 && mustCross(fn, fundsCall.Block(), exh)
+			// (the receive may sit in a helper that is handed the channel: the walk follows it and is pruned by the
+			// helper return it came back through)
+			dataPath := pathOf(data)
+			reached := false
+			dw := newDeepWalk(func(in ssa.Instruction, _ *frame) bool {
+				if in == fundsCall.(ssa.Instruction) {
+					reached = true
+				}
+				return reached
+			})
+			nExh := 0
+			dw.cutSpec = func(fn2 *ssa.Function, res resolver) []Edge {
+				es := exhaustedEdgesOfPath(fn2, res, dataPath)
+				nExh += len(es)
+				return es
+			}
+			dw.run(topFrame(fn), fn.Blocks[0], 0)
+			okOrder := nExh > 0 && !reached
 			r.check(okOrder, "funds-roles", "validateLeaf/check-after-full-walk", lineOf(w, fundsCall), "the funds check runs only after the ancestor walk was exhausted", "funds check reachable before the walker channel is exhausted")
 			// every received item is poured (or skipped as already visited)
 			recvs, _ := exhaustedEdges(fn, data)
